@@ -11,6 +11,7 @@
 #include <amgcl/mpi/coarsening/aggregation.hpp>
 #include <amgcl/mpi/coarsening/smoothed_aggregation.hpp>
 #include <amgcl/mpi/direct_solver/skyline_lu.hpp>
+#include <amgcl/mpi/partition/merge.hpp>
 #include <amgcl/mpi/subdomain_deflation.hpp>
 #include <amgcl/mpi/block_preconditioner.hpp>
 #include <amgcl/amg.hpp>
@@ -515,6 +516,66 @@ static void prop_one_level(Tape &t, Ctx &c) {
     });
 }
 
+// ------------------------------------------------------------------ repartitioning decision (merge partitioner)
+// Every rank must take the same decision (a rank that disagrees enters different collectives: the setup dead-locks, which a
+// time-bounded harness can only see as "inconclusive"), the decision must be the documented one, and the permutation returned
+// by the partitioner must be a global permutation onto a contiguous column partition with fewer non-empty ranks.
+static void prop_repart_decision(Tape &t, Ctx &c) {
+    const int k = size_ref(), me = rank_ref();
+    amgcl::mpi::communicator comm(MPI_COMM_WORLD);
+    ptrdiff_t n = t.u(1, 300);
+    std::vector<ptrdiff_t> dom = gen_partition(t, n, k);
+    std::vector<ptrdiff_t> cnt; for (int r = 0; r < k; ++r) cnt.push_back(dom[r + 1] - dom[r]);
+    typedef amgcl::mpi::partition::merge<B> Merge;
+    Merge::params mp;
+    mp.enable = !t.chance(1, 8);
+    // thresholds at, just below and just above the per-rank row counts, so that ranks straddle it
+    ptrdiff_t base = cnt[t.pick(cnt.size())];
+    mp.min_per_proc = std::max<ptrdiff_t>(0, base + t.u(-1, 1)) + (t.chance(1, 4) ? t.u(0, 300) : 0);
+    mp.shrink_ratio = static_cast<int>(t.u(2, 8));
+    int non_empty = 0; ptrdiff_t min_n = std::numeric_limits<ptrdiff_t>::max(), max_n = 0;
+    for (int r = 0; r < k; ++r) if (cnt[r]) { ++non_empty; min_n = std::min(min_n, cnt[r]); max_n = std::max(max_n, cnt[r]); }
+    bool expected = mp.enable && non_empty > 1 && min_n <= mp.min_per_proc;
+    c.desc << "repartition decision ranks=" << k << " n=" << n << " enable=" << mp.enable << " min_per_proc=" << mp.min_per_proc << " shrink_ratio=" << mp.shrink_ratio << " rows:";
+    for (auto v : cnt) c.desc << v << ",";
+    c.nontrivial = k >= 2 && non_empty >= 2 && min_n <= mp.min_per_proc && mp.min_per_proc < max_n; // ranks straddle the threshold
+    c.label(expected ? "repartition" : "keep"); if (c.nontrivial) c.label("ranks-straddle-threshold");
+    // identity-like matrix with the generated row partition
+    Csr<double> Al; Al.n = cnt[me]; Al.m = n; Al.ptr.assign(Al.n + 1, 0);
+    for (ptrdiff_t i = 0; i < Al.n; ++i) { Al.col.push_back(dom[me] + i); Al.val.push_back(1.0 + i); Al.ptr[i + 1] = i + 1; }
+    auto tup = std::make_tuple(static_cast<size_t>(Al.n), Al.ptr, Al.col, Al.val);
+    DM A(comm, tup, Al.n);
+    Merge M(mp);
+    int need = M.is_needed(A) ? 1 : 0;
+    std::vector<double> all = allgatherv(std::vector<double>{double(need)}, MPI_DOUBLE);
+    bool agree = true; for (int r = 1; r < k; ++r) agree = agree && all[r] == all[0];
+    // the permutation is a collective call: only made when every rank agreed to make it
+    std::string err; long nz = 0; Dense<cplx> I; ptrdiff_t new_cols = -1;
+    if (agree && need) {
+        auto Ip = M(A);
+        new_cols = Ip->loc_cols();
+        I = assemble<double>(*Ip, n, n, dom[me], nz, err);
+    }
+    std::vector<double> nc = allgatherv(std::vector<double>{double(new_cols)}, MPI_DOUBLE);
+    mpi_checked([&]() {
+        for (int r = 0; r < k; ++r) VF_REQUIRE(all[r] == all[0], "merge::is_needed() differs between ranks: rank 0 says " << all[0] << ", rank " << r << " says " << all[r] << " (ranks would enter different collectives)");
+        VF_REQUIRE((need != 0) == expected, "merge::is_needed() = " << need << " but (non_empty > 1 && smallest non-empty domain <= min_per_proc) = " << expected);
+        if (!need) return;
+        VF_REQUIRE(err.empty(), err);
+        ptrdiff_t tot = 0; int new_non_empty = 0;
+        for (int r = 0; r < k; ++r) { VF_REQUIRE(nc[r] >= 0, "negative number of new local columns"); tot += static_cast<ptrdiff_t>(nc[r]); new_non_empty += nc[r] > 0; }
+        VF_REQUIRE(tot == n, "the new column partition covers " << tot << " of " << n << " unknowns");
+        VF_REQUIRE(new_non_empty <= non_empty && new_non_empty >= 1, "repartitioning went from " << non_empty << " to " << new_non_empty << " non-empty ranks");
+        std::vector<int> hit(n, 0);
+        for (ptrdiff_t i = 0; i < n; ++i) {
+            int per_row = 0;
+            for (ptrdiff_t j = 0; j < n; ++j) if (I(i, j) != cplx(0)) { ++per_row; ++hit[j]; VF_REQUIRE(I(i, j) == cplx(1), "permutation matrix entry (" << i << "," << j << ") = " << I(i, j)); }
+            VF_REQUIRE(per_row == 1, "row " << i << " of the permutation matrix has " << per_row << " entries");
+        }
+        for (ptrdiff_t j = 0; j < n; ++j) VF_REQUIRE(hit[j] == 1, "column " << j << " of the permutation matrix is hit " << hit[j] << " times");
+    });
+}
+
 static std::vector<Prop> props() {
     return {
         Prop("solve_block2", prop_solve_block<2>, 60, 400, 100, 60, {1}, 1, 2),
@@ -525,6 +586,7 @@ static std::vector<Prop> props() {
         Prop("aggregation", prop_aggregation, 120, 800, 100, 40, {1}, 1, 2),
         Prop("smoothed", prop_smoothed, 80, 500, 100, 40, {1}, 1, 2),
         Prop("direct", prop_direct, 80, 500, 100, 20, {1}, 1, 1),
+        Prop("repart_decision", prop_repart_decision, 150, 1500, 100, 10, {1}, 1, 1),
     };
 }
 static std::vector<Enum> enums() { return {}; }
